@@ -5,6 +5,7 @@
 //!
 //! One line per violation; no model involved (the oracle is the statement itself).
 use crate::kinds::{Align64, Witness, Zst};
+use arc_swap::strategy::{CaS, DefaultStrategy, Strategy};
 use arc_swap::{ArcSwap, ArcSwapAny, RefCnt};
 use std::rc::{Rc, Weak as RcWeak};
 use std::sync::{Arc, Weak};
@@ -34,7 +35,7 @@ fn counts(w: Option<&dyn Witness>) -> (usize, Option<usize>) {
 
 /// The program, for one kind and state.  `make` produces handles denoting the same object (or the
 /// same empty value) every time.
-fn program<T: RefCnt>(out: &mut Vec<String>, head: &str, w: Option<&dyn Witness>, make: &dyn Fn() -> T, same: &dyn Fn(&T, &T) -> bool) {
+fn program<T: RefCnt, S: Strategy<T> + CaS<T> + Default>(out: &mut Vec<String>, head: &str, w: Option<&dyn Witness>, make: &dyn Fn() -> T, same: &dyn Fn(&T, &T) -> bool) {
     if let Err(e) = slots_free() {
         out.push(format!("slots: {}: before the program: {}", head, e));
         return;
@@ -47,7 +48,7 @@ fn program<T: RefCnt>(out: &mut Vec<String>, head: &str, w: Option<&dyn Witness>
         }
     };
     {
-        let c = ArcSwapAny::<T>::new(make());
+        let c = ArcSwapAny::<T, S>::with_strategy(make(), S::default());
         let c1 = counts(w);
         // guards come and go: nothing changes, nothing stays behind
         for k in [1usize, 3, 8] {
@@ -92,7 +93,7 @@ fn program<T: RefCnt>(out: &mut Vec<String>, head: &str, w: Option<&dyn Witness>
         // up for the empty kinds (everything empty is equal), so only success is exercised
         {
             let cur = c.load();
-            let prev = c.compare_and_swap(&cur, make());
+            let prev = c.compare_and_swap(&*cur, make());
             if !same(&*prev, &make()) {
                 out.push(format!("identity: {}: compare_and_swap returned another value", head));
             }
@@ -122,36 +123,36 @@ fn weak_same<P>(a: &Weak<P>, b: &Weak<P>) -> bool { Weak::ptr_eq(a, b) }
 fn rcweak_same<P>(a: &RcWeak<P>, b: &RcWeak<P>) -> bool { RcWeak::ptr_eq(a, b) }
 
 macro_rules! strong {
-    ($out:ident, $strong:ident, $weak:ident, $kname:expr, $pname:expr, $val:expr) => {{
+    ($out:ident, $S:ty, $sname:expr, $strong:ident, $weak:ident, $kname:expr, $pname:expr, $val:expr) => {{
         // unique / shared / with outstanding weak references
         for (state, extra_strong, extra_weak) in [("unique", 0usize, 0usize), ("shared", 2, 0), ("weaks", 0, 2)] {
             let v = $strong::new($val);
             let _s: Vec<_> = (0..extra_strong).map(|_| $strong::clone(&v)).collect();
             let _w: Vec<_> = (0..extra_weak).map(|_| $strong::downgrade(&v)).collect();
             let wit = $strong::downgrade(&v);
-            program::<$strong<_>>(&mut $out, &format!("kind={} pointee={} state={}", $kname, $pname, state), Some(&wit), &|| $strong::clone(&v), &|a, b| $strong::ptr_eq(a, b));
-            program::<Option<$strong<_>>>(&mut $out, &format!("kind=opt-{} pointee={} state={}", $kname, $pname, state), Some(&wit), &|| Some($strong::clone(&v)),
+            program::<$strong<_>, $S>(&mut $out, &format!("strategy={} kind={} pointee={} state={}", $sname, $kname, $pname, state), Some(&wit), &|| $strong::clone(&v), &|a, b| $strong::ptr_eq(a, b));
+            program::<Option<$strong<_>>, $S>(&mut $out, &format!("strategy={} kind=opt-{} pointee={} state={}", $sname, $kname, $pname, state), Some(&wit), &|| Some($strong::clone(&v)),
                 &|a, b| match (a, b) { (Some(a), Some(b)) => $strong::ptr_eq(a, b), (None, None) => true, _ => false });
         }
-        program::<Option<$strong<u8>>>(&mut $out, &format!("kind=opt-{} pointee={} state=none", $kname, $pname), None, &|| None, &|a, b| a.is_none() && b.is_none());
+        program::<Option<$strong<u8>>, $S>(&mut $out, &format!("strategy={} kind=opt-{} pointee={} state=none", $sname, $kname, $pname), None, &|| None, &|a, b| a.is_none() && b.is_none());
     }};
 }
 
 macro_rules! weak {
-    ($out:ident, $strong:ident, $weak:ident, $same:ident, $kname:expr, $pname:expr, $val:expr) => {{
+    ($out:ident, $S:ty, $sname:expr, $strong:ident, $weak:ident, $same:ident, $kname:expr, $pname:expr, $val:expr) => {{
         {
             let v = $strong::new($val);
             let wk = $strong::downgrade(&v);
             let wit = $strong::downgrade(&v);
-            program::<$weak<_>>(&mut $out, &format!("kind={} pointee={} state=live", $kname, $pname), Some(&wit), &|| wk.clone(), &|a, b| $same(a, b));
+            program::<$weak<_>, $S>(&mut $out, &format!("strategy={} kind={} pointee={} state=live", $sname, $kname, $pname), Some(&wit), &|| wk.clone(), &|a, b| $same(a, b));
         }
         {
             let v = $strong::new($val);
             let wk = $strong::downgrade(&v);
             drop(v);
-            program::<$weak<_>>(&mut $out, &format!("kind={} pointee={} state=target-dropped", $kname, $pname), None, &|| wk.clone(), &|a, b| $same(a, b));
+            program::<$weak<_>, $S>(&mut $out, &format!("strategy={} kind={} pointee={} state=target-dropped", $sname, $kname, $pname), None, &|| wk.clone(), &|a, b| $same(a, b));
         }
-        program::<$weak<u8>>(&mut $out, &format!("kind={} pointee={} state=dangling", $kname, $pname), None, &|| $weak::new(), &|a, b| $same(a, b));
+        program::<$weak<u8>, $S>(&mut $out, &format!("strategy={} kind={} pointee={} state=dangling", $sname, $kname, $pname), None, &|| $weak::new(), &|a, b| $same(a, b));
     }};
 }
 
@@ -180,21 +181,31 @@ fn strong_and_weak_of_one_allocation(out: &mut Vec<String>) {
     }
 }
 
+macro_rules! all_kinds {
+    ($out:ident, $S:ty, $sname:expr) => {{
+        strong!($out, $S, $sname, Arc, Weak, "arc", "zst", Zst);
+        strong!($out, $S, $sname, Arc, Weak, "arc", "u8", 7u8);
+        strong!($out, $S, $sname, Arc, Weak, "arc", "align64", Align64::default());
+        strong!($out, $S, $sname, Arc, Weak, "arc", "string", String::from("hello"));
+        strong!($out, $S, $sname, Rc, RcWeak, "rc", "zst", Zst);
+        strong!($out, $S, $sname, Rc, RcWeak, "rc", "u8", 7u8);
+        strong!($out, $S, $sname, Rc, RcWeak, "rc", "string", String::from("hello"));
+        weak!($out, $S, $sname, Arc, Weak, weak_same, "weakarc", "zst", Zst);
+        weak!($out, $S, $sname, Arc, Weak, weak_same, "weakarc", "u8", 7u8);
+        weak!($out, $S, $sname, Arc, Weak, weak_same, "weakarc", "string", String::from("hello"));
+        weak!($out, $S, $sname, Rc, RcWeak, rcweak_same, "weakrc", "zst", Zst);
+        weak!($out, $S, $sname, Rc, RcWeak, rcweak_same, "weakrc", "u8", 7u8);
+        weak!($out, $S, $sname, Rc, RcWeak, rcweak_same, "weakrc", "string", String::from("hello"));
+    }};
+}
+
+#[allow(deprecated)]
 pub fn run() -> Vec<String> {
     let mut out = vec![];
-    strong!(out, Arc, Weak, "arc", "zst", Zst);
-    strong!(out, Arc, Weak, "arc", "u8", 7u8);
-    strong!(out, Arc, Weak, "arc", "align64", Align64::default());
-    strong!(out, Arc, Weak, "arc", "string", String::from("hello"));
-    strong!(out, Rc, RcWeak, "rc", "zst", Zst);
-    strong!(out, Rc, RcWeak, "rc", "u8", 7u8);
-    strong!(out, Rc, RcWeak, "rc", "string", String::from("hello"));
-    weak!(out, Arc, Weak, weak_same, "weakarc", "zst", Zst);
-    weak!(out, Arc, Weak, weak_same, "weakarc", "u8", 7u8);
-    weak!(out, Arc, Weak, weak_same, "weakarc", "string", String::from("hello"));
-    weak!(out, Rc, RcWeak, rcweak_same, "weakrc", "zst", Zst);
-    weak!(out, Rc, RcWeak, rcweak_same, "weakrc", "u8", 7u8);
-    weak!(out, Rc, RcWeak, rcweak_same, "weakrc", "string", String::from("hello"));
+    // every pointer kind under every strategy (C14: the three strategies agree with a plain variable)
+    all_kinds!(out, DefaultStrategy, "default");
+    all_kinds!(out, arc_swap::strategy::test_strategies::FillFastSlots, "fallback-only");
+    all_kinds!(out, std::sync::RwLock<()>, "lock");
     strong_and_weak_of_one_allocation(&mut out);
     out
 }
